@@ -1,5 +1,7 @@
 INIT Init
 NEXT Next
 INVARIANT OrderIndependent
-CONSTANT Recheck = FALSE
+CONSTANTS
+ Recheck = FALSE
+ Emit = FALSE
 CHECK_DEADLOCK FALSE
